@@ -1,11 +1,17 @@
 """C20 - coupling-graph and qudit-permutation utilities match their definitions.
 
-Correspondence: extracted Coq model (coq/map/Graph.v) vs the real CouplingGraph /
-PermutationMatrix on exhaustively enumerated small graphs + random larger ones.
-Property oracle: independent textbook computations on the implementation's answers.
+Every case is a *query* (one text line).  For each query three things are computed:
+  impl     the real CouplingGraph / PermutationMatrix / UnitaryMatrix / UnitaryBuilder /
+           MachineModel answer (canonicalised: sorted sets, exceptions -> small enum),
+  model    the answer of the extracted Coq model (coq/map/Graph*.v, Kron.v) - correspondence,
+  oracle   an independent textbook computation in this file - the property itself.
+impl != oracle  -> VIOLATION (concrete failing input, replayable from the query alone);
+impl != model   -> correspondence VIOLATION (the theorems no longer talk about the code).
+Queries starting with `py:` have no model part (oracle only).
 """
 from __future__ import annotations
 
+import heapq
 import itertools
 import warnings
 
@@ -13,11 +19,39 @@ import vf
 
 BUILD = dict(extracted=['graph'], translators=set())
 
+INF = 'inf'
 
+
+# ---- tiny value syntax shared with coq/extract/common.ml ---------------------------
 def fmt(x) -> str:
     if isinstance(x, (list, tuple)):
         return '[' + ' '.join(fmt(y) for y in x) + ']'
+    if isinstance(x, bool):
+        return 'T' if x else 'F'
     return str(x)
+
+
+def parse(s: str):
+    toks = s.replace('[', ' [ ').replace(']', ' ] ').replace(',', ' ').split()
+    pos = 0
+
+    def items():
+        nonlocal pos
+        out = []
+        while pos < len(toks):
+            t = toks[pos]
+            pos += 1
+            if t == ']':
+                return out
+            if t == '[':
+                out.append(items())
+            else:
+                try:
+                    out.append(int(t))
+                except ValueError:
+                    out.append(t)
+        return out
+    return items()
 
 
 def adj_of(n, es):
@@ -30,13 +64,17 @@ def adj_of(n, es):
     return adj
 
 
+def edges_of_adj(adj):
+    return [(a, b) for a in range(len(adj)) for b in sorted(adj[a]) if a < b]
+
+
 def all_graphs(n):
     pairs = list(itertools.combinations(range(n), 2))
     for mask in range(1 << len(pairs)):
         yield [p for i, p in enumerate(pairs) if mask >> i & 1]
 
 
-# ---- textbook oracle --------------------------------------------------------
+# ---- textbook oracle ------------------------------------------------------------------
 def bfs_dist(adj, s, removed=None):
     d = {s: 0}
     q = [s]
@@ -49,228 +87,926 @@ def bfs_dist(adj, s, removed=None):
     return d
 
 
+def is_connected_subset(adj, sub):
+    s = set(sub)
+    first = next(iter(s))
+    seen = {first}
+    q = [first]
+    while q:
+        x = q.pop()
+        for y in adj[x]:
+            if y in s and y not in seen:
+                seen.add(y)
+                q.append(y)
+    return seen == s
+
+
 def connected_subsets(adj, k):
+    return {sub for sub in itertools.combinations(range(len(adj)), k) if is_connected_subset(adj, sub)}
+
+
+def weight_table(n, es, remote, dw, rw, ov):
+    """documented meaning of the constructor arguments: default weight on every edge,
+    remote weight on remote edges, per-edge overrides last"""
+    W = {}
+    for a, b in es:
+        W[(a, b)] = W[(b, a)] = dw
+    for a, b in remote:
+        W[(a, b)] = W[(b, a)] = rw
+    for a, b, x in ov:
+        W[(a, b)] = W[(b, a)] = x
+    return W
+
+
+def min_walks_ge1(n, W):
+    """least weight of a walk with at least one edge from i to j (Dijkstra, then one
+    forced first step): the code's convention - there is no zero diagonal"""
+    nb = {i: [] for i in range(n)}
+    for (a, b), x in W.items():
+        nb[a].append((b, x))
+    d0 = []
+    for s in range(n):
+        dist = {s: 0}
+        heap = [(0, s)]
+        while heap:
+            d, x = heapq.heappop(heap)
+            if d > dist.get(x, float('inf')):
+                continue
+            for y, wt in nb[x]:
+                if d + wt < dist.get(y, float('inf')):
+                    dist[y] = d + wt
+                    heapq.heappush(heap, (d + wt, y))
+        d0.append(dist)
+    out = []
+    for i in range(n):
+        row = []
+        for j in range(n):
+            best = None
+            for v, wt in nb[i]:
+                if j in d0[v]:
+                    c = wt + d0[v][j]
+                    best = c if best is None or c < best else best
+            row.append(INF if best is None else best)
+        out.append(row)
+    return out
+
+
+def embeds(adj_g, adj_h):
+    """exists an injective edge-preserving map V(g) -> V(h) (brute force)"""
+    ng, nh = len(adj_g), len(adj_h)
+    eg = edges_of_adj(adj_g)
+    for img in itertools.permutations(range(nh), ng):
+        if all(img[b] in adj_h[img[a]] for a, b in eg):
+            return True
+    return False
+
+
+def topo_edges(name, args):
+    """textbook edge sets (vertex count, set of pairs a < b)"""
+    if name == 'grid':
+        r, c = args
+        es = set()
+        for i in range(r):
+            for j in range(c):
+                if j + 1 < c:
+                    es.add((i * c + j, i * c + j + 1))
+                if i + 1 < r:
+                    es.add((i * c + j, (i + 1) * c + j))
+        return r * c, es
+    n, = args
+    if name == 'all_to_all':
+        return n, {(a, b) for a in range(n) for b in range(a + 1, n)}
+    if name == 'linear':
+        return n, {(a, a + 1) for a in range(n - 1)}
+    if name == 'ring':
+        return n, {tuple(sorted((a, (a + 1) % n))) for a in range(n) if n >= 2}
+    if name == 'star':
+        return n, {(0, b) for b in range(1, n)}
+    raise KeyError(name)
+
+
+def embed_operator(radixes, loc, U):
+    """explicit operator: U on the qudits `loc` (in that order), identity elsewhere"""
+    import numpy as np
+    n = len(radixes)
+    dim = 1
+    for r in radixes:
+        dim *= r
+
+    def digs(idx):
+        out = []
+        for q in range(n):
+            rest = 1
+            for r in radixes[q + 1:]:
+                rest *= r
+            out.append((idx // rest) % radixes[q])
+        return out
+
+    def sub(d):
+        v = 0
+        for q in loc:
+            v = v * radixes[q] + d[q]
+        return v
+    E = np.zeros((dim, dim), dtype=np.int64)
+    for row in range(dim):
+        dr = digs(row)
+        for col in range(dim):
+            dc = digs(col)
+            if all(dr[q] == dc[q] for q in range(n) if q not in loc):
+                E[row][col] = U[sub(dr)][sub(dc)]
+    return E
+
+
+def exact(M):
+    """numpy complex matrix -> list of int rows, or None when not an exact integer matrix"""
+    import numpy as np
+    M = np.array(M)
+    if np.any(M.imag != 0) or np.any(M.real != np.round(M.real)):
+        return None
+    return [[int(x) for x in row] for row in M.real]
+
+
+# ---- the implementation under test (imported lazily, after ctx.build) ------------------
+class Impl:
+    pass
+
+
+def load_impl():
+    from bqskit.ir.circuit import Circuit  # noqa: F401 (import order: avoids a circular import)
+    from bqskit.qis.graph import CouplingGraph
+    from bqskit.qis.permutation import PermutationMatrix
+    from bqskit.qis.unitary.unitarymatrix import UnitaryMatrix
+    from bqskit.qis.unitary.unitarybuilder import UnitaryBuilder
+    from bqskit.compiler.machine import MachineModel
+    from bqskit.ir.gates import CNOTGate
+    from bqskit.ir.location import CircuitLocation
+    Impl.CL = CircuitLocation
+    import numpy as np
+    Impl.Circuit, Impl.G, Impl.PM, Impl.UM, Impl.UB, Impl.MM, Impl.CNOT, Impl.np = (
+        Circuit, CouplingGraph, PermutationMatrix, UnitaryMatrix, UnitaryBuilder, MachineModel, CNOTGate, np)
+    warnings.simplefilter('ignore')
+
+
+def err(e: Exception) -> str:
+    n = type(e).__name__
+    return n if n in ('TypeError', 'ValueError', 'KeyError', 'IndexError', 'RuntimeError') else 'ERR:' + n
+
+
+def safe(f):
+    try:
+        return f()
+    except RecursionError:
+        return 'ERR:RecursionError'
+    except Exception as e:  # noqa
+        return err(e)
+
+
+def graph_of(adj):
+    return Impl.G(edges_of_adj(adj), len(adj))
+
+
+def vadj(g):
+    return fmt([g.num_qudits, [sorted(a) for a in g._adj]])
+
+
+def canon_edges(v):
+    return fmt(sorted(set(tuple(sorted(e)) for e in v)))
+
+
+# A handler returns a dict:
+#   model   model query line or None           canon   function canonicalising the model's answer
+#   impl    canonical implementation answer     oracle  expected canonical answer or None
+#   sig     signature dict for the violation    what    text
+# and may add `extra` = list of (sig, expected, observed, what) oracle failures found on the side.
+ERRS = ('TypeError', 'ValueError', 'KeyError', 'IndexError', 'RuntimeError')
+
+
+def merr(x):
+    """the model conflates the raising paths of one call into ERR (None)"""
+    return 'ERR' if x in ERRS else x
+
+
+def h_fc(a):
+    adj, = a
+    g = graph_of(adj)
+    d0 = bfs_dist(adj, 0)
+    return dict(model=f'fc {fmt(adj)}', impl=safe(lambda: fmt(bool(g.is_fully_connected()))),
+                oracle=fmt(len(d0) == len(adj)), what='is_fully_connected')
+
+
+def h_fcw(a):
+    adj, q = a
+    g, n = graph_of(adj), len(adj)
+    orc = None
+    if n >= 2 and q < n:
+        s = 1 if q == 0 else 0
+        orc = fmt(len(bfs_dist(adj, s, removed=q)) == n - 1)     # g - q is connected
+    return dict(model=f'fcw {fmt(adj)} {q}', impl=merr(safe(lambda: fmt(bool(g.is_fully_connected_without(q))))),
+                oracle=orc, what='is_fully_connected_without')
+
+
+def h_deg(a):
+    adj, = a
+    g = graph_of(adj)
+    extra = []
+    for v in range(len(adj)):
+        got = sorted(g.get_neighbors_of(v))
+        if got != sorted(adj[v]):
+            extra.append((dict(call='get_neighbors_of'), sorted(adj[v]), got, 'neighbourhood differs from the edge list'))
+    return dict(model=f'deg {fmt(adj)}', impl=fmt(g.get_qudit_degrees()), oracle=fmt([len(x) for x in adj]),
+                what='get_qudit_degrees', extra=extra)
+
+
+def h_lin(a):
+    adj, = a
+    g, n = graph_of(adj), len(adj)
+    degs = [len(x) for x in adj]
+    m = sum(degs) // 2
+    orc = n >= 2 and len(bfs_dist(adj, 0)) == n and m == n - 1 and max(degs) <= 2     # a path on all vertices
+    impl = fmt(bool(g.is_linear()))
+    sig = dict(call='is_linear')
+    if impl == 'T' and not orc and len(bfs_dist(adj, 0)) < n:
+        sig['symptom'] = 'disconnected_accepted'
+    # the Coq model follows the unfixed code (degree profile only, finding C20-F6); once the fix is applied the
+    # implementation agrees with the oracle and the model's 'T' on a disconnected graph is the documented difference
+    return dict(model=f'lin {fmt(adj)}', impl=impl, oracle=fmt(orc), what='is_linear', sig=sig,
+                alt_ok=(lambda mc: mc == 'T') if (not orc and len(bfs_dist(adj, 0)) < n) else None)
+
+
+def cmat(D):
+    return fmt([[INF if x == float('inf') else int(x) for x in row] for row in D])
+
+
+def h_fw(a):
+    adj, = a
+    g, n = graph_of(adj), len(adj)
+    W = weight_table(n, edges_of_adj(adj), [], 1, 1, [])
+    return dict(model=f'fw {fmt(adj)}', impl=cmat(g.all_pairs_shortest_path()), oracle=fmt(min_walks_ge1(n, W)),
+                what='all_pairs_shortest_path')
+
+
+def h_fww(a):
+    n, es, remote, dw, rw, ov = a
+    es, remote = [tuple(e) for e in es], [tuple(e) for e in remote]
+
+    def f():
+        g = Impl.G(es, n, remote_edges=remote, default_weight=dw, default_remote_weight=rw,
+                   edge_weights_overrides={(x, y): z for x, y, z in ov})
+        return cmat(g.all_pairs_shortest_path())
+    W = weight_table(n, es, remote, dw, rw, ov)
+    return dict(model='fww ' + ' '.join(fmt(x) for x in a), impl=safe(f), oracle=fmt(min_walks_ge1(n, W)),
+                what='all_pairs_shortest_path', sig=dict(call='all_pairs_shortest_path', weights='weighted'))
+
+
+def h_spt(a):
+    adj, s = a
+    g, n = graph_of(adj), len(adj)
+    got = safe(lambda: [list(p) for p in g.get_shortest_path_tree(s)])
+    ds = bfs_dist(adj, s) if s < n else {}
+    if isinstance(got, str):
+        ok = (len(ds) < n and got == 'RuntimeError') or (s >= n and got == 'IndexError')
+        impl = 'ERR'
+    else:
+        ok = len(ds) == n and len(got) == n and all(
+            len(p) >= 1 and p[0] == s and p[-1] == t and len(p) - 1 == ds[t]
+            and all(p[i + 1] in adj[p[i]] for i in range(len(p) - 1)) for t, p in enumerate(got))
+        impl = fmt(got)
+    return dict(model=f'spt {fmt(adj)} {s}', impl=impl, oracle=None if ok else
+                'paths of g from the source with BFS-distance hops; RuntimeError iff a vertex is unreachable',
+                what='get_shortest_path_tree')
+
+
+def h_sub(a):
+    adj, k = a
+    g = graph_of(adj)
+    got = safe(lambda: [tuple(l) for l in g.get_subgraphs_of_size(k)])
     n = len(adj)
-    res = set()
-    for sub in itertools.combinations(range(n), k):
-        s = set(sub)
-        seen = {sub[0]}
-        q = [sub[0]]
-        while q:
-            x = q.pop()
-            for y in adj[x]:
-                if y in s and y not in seen:
-                    seen.add(y)
-                    q.append(y)
-        if seen == s:
-            res.add(sub)
-    return res
+    if isinstance(got, str):
+        return dict(model=f'sub {fmt(adj)} {k}', impl=merr(got), oracle='ERR' if (k <= 0 or k > n) else 'no error',
+                    what='get_subgraphs_of_size')
+    extra = []
+    as_sets = [tuple(sorted(l)) for l in got]
+    if len(set(as_sets)) != len(as_sets) or any(list(l) != sorted(l) for l in got):
+        extra.append((dict(call='get_subgraphs_of_size', symptom='duplicate_location'), 'each connected subset once, sorted',
+                      fmt(got), 'a vertex set is returned more than once / unsorted (CPython set order of colliding labels)'))
+    return dict(model=f'sub {fmt(adj)} {k}', impl=fmt(sorted(set(as_sets))), oracle=fmt(sorted(connected_subsets(adj, k))),
+                canon=lambda v: v if v == 'ERR' else fmt(sorted(set(tuple(sorted(x)) for x in parse(v)[0]))),
+                what='get_subgraphs_of_size', extra=extra)
+
+
+def h_gsub(a):
+    adj, loc, ren = a
+    g, n, k = graph_of(adj), len(adj), len(loc)
+    rd = None if ren == 'NONE' else {x: y for x, y in ren}
+
+    def f():
+        sg = g.get_subgraph(loc, rd)
+        assert sg.num_qudits == k
+        return canon_edges(sg._edges)
+    got = merr(safe(f))
+    es = edges_of_adj(adj)
+    r = rd if rd is not None else {x: i for i, x in enumerate(loc)}
+    valid_loc = len(set(loc)) == k and all(0 <= x < n for x in loc) and k > 0
+    sig = dict(call='get_subgraph')
+    alt = None
+    if not valid_loc or set(r) != set(loc) or (ren != 'NONE' and len(ren) != len(r)):
+        orc = 'ERR'
+    elif sorted(r.values()) != list(range(k)):
+        orc = 'ERR'      # "the renumbering must be a permutation of [0, len(location))"
+        alt = (lambda mc: True)     # the model follows the unfixed code (finding C20-F5): it may accept
+        if got != 'ERR':
+            sig['symptom'] = 'non_injective_renumbering_accepted'
+    else:
+        orc = canon_edges({(r[x], r[y]) for x, y in es if x in r and y in r})
+    line = f'gsub {fmt(adj)} {fmt(loc)}' if ren == 'NONE' else f'gsubr {fmt(adj)} {fmt(loc)} {fmt(ren)}'
+    return dict(model=line, impl=got, oracle=orc, sig=sig, what='get_subgraph', alt_ok=alt,
+                canon=lambda v: v if v == 'ERR' else canon_edges(parse(v)[0]))
+
+
+def perm_matrix_expected(n, radix, loc):
+    np = Impl.np
+    full = list(loc) + [i for i in range(n) if i not in loc]
+    dim = radix ** n
+    exp = np.zeros((dim, dim), dtype=np.int64)
+    for col in range(dim):
+        digs = [(col // radix ** (n - 1 - qd)) % radix for qd in range(n)]
+        out = [digs[full[i]] for i in range(n)]       # position i receives qudit full[i]
+        row = sum(dg * radix ** (n - 1 - i) for i, dg in enumerate(out))
+        exp[row][col] = 1
+    return [[int(x) for x in r] for r in exp]
+
+
+def h_fql(a):
+    n, radix, loc = a
+    P = safe(lambda: exact(Impl.PM.from_qudit_location(n, radix, loc).numpy))
+    exp = perm_matrix_expected(n, radix, loc)
+    return dict(model=f'fql {n} {radix} {fmt(loc)}', impl=fmt([P, True]) if not isinstance(P, str) else P,
+                oracle=fmt([exp, True]), what='from_qudit_location', sig=dict(call='from_qudit_location'))
+
+
+def h_perm(a):
+    n, loc = a          # model only: the loop sorts and routes (also a theorem); the matrices are checked by fql
+    exp = [list(range(n)), list(range(len(loc)))]
+    return dict(model=f'perm {n} {fmt(loc)}', impl=fmt(exp), oracle=None, what='perm_loop',
+                canon=lambda v: fmt([parse(v)[0][0], parse(v)[0][2]]), sig=dict(call='perm_loop-model'))
+
+
+def h_emb(a):
+    ag, ah = a
+    g, h = graph_of(ag), graph_of(ah)
+    return dict(model=f'emb {fmt(ag)} {fmt(ah)}', impl=safe(lambda: fmt(bool(g.is_embedded_in(h)))),
+                oracle=fmt(embeds(ag, ah)), what='is_embedded_in')
+
+
+def h_topo(a):
+    name, args = a[0], a[1:]
+    impl = safe(lambda: vadj(getattr(Impl.G, name)(*args)))
+    n, es = topo_edges(name, args)
+    orc = None
+    if name == 'ring' and n == 1:
+        orc = None       # C_1: the code raises TypeError (self-loop (0,0)); no textbook simple graph to compare with
+    elif n >= 1:
+        orc = fmt([n, [sorted(x) for x in adj_of(n, sorted(es))]])
+    else:
+        orc = fmt([1, [[]]])     # size is inferred from the largest label: the empty edge list is ONE vertex
+    return dict(model='topo ' + ' '.join(str(x) for x in a), impl=impl, oracle=orc, what=f'CouplingGraph.{name}',
+                sig=dict(call=name))
+
+
+def h_mkg(a):
+    es, on = a
+    es = [tuple(e) for e in es]
+    impl = safe(lambda: vadj(Impl.G(es, None if on == 'NONE' else on)))
+    if any(x == y for x, y in es):
+        orc = 'TypeError'
+    else:
+        c = 1 + max([max(e) for e in es], default=0)
+        if on != 'NONE' and on < c:
+            orc = 'ValueError'
+        else:
+            n = c if on == 'NONE' else on
+            orc = fmt([n, [sorted(x) for x in adj_of(n, es)]])
+    return dict(model=f'mkg {fmt(es)} {on}', impl=impl, oracle=orc, what='CouplingGraph.__init__', sig=dict(call='__init__'))
+
+
+def h_ind(a):
+    adj, loc = a
+    g = graph_of(adj)
+    impl = safe(lambda: fmt([list(e) for e in g.get_induced_subgraph(loc)]))
+    if len(set(loc)) != len(loc) or len(loc) < 2:
+        orc = 'ValueError'
+    else:
+        orc = fmt([[min(x, y), max(x, y)] for x, y in itertools.combinations(loc, 2) if y in adj[x]])
+    return dict(model=f'ind {fmt(adj)} {fmt(loc)}', impl=impl, oracle=orc, what='get_induced_subgraph')
+
+
+def h_relab(a):
+    es, ren = a
+    es = [tuple(e) for e in es]
+    rd = None if ren == 'NONE' else {x: y for x, y in ren}
+    impl = safe(lambda: vadj(Impl.G.relabel_subgraph(es, rd)))
+    sig = dict(call='relabel_subgraph')
+    if rd is None:
+        vs = sorted({x for e in es for x in e})
+        r = {v: i for i, v in enumerate(vs)}      # "least to greatest order" (docstring)
+    else:
+        r = rd
+    if any(x not in r or y not in r for x, y in es):
+        orc = 'KeyError'
+    else:
+        new = [tuple(sorted((r[x], r[y]))) for x, y in es]
+        if any(x == y for x, y in new):
+            orc = 'TypeError'
+        else:
+            n = 1 + max([max(e) for e in new], default=0)
+            orc = fmt([n, [sorted(x) for x in adj_of(n, new)]])
+    if rd is None and impl != orc:
+        sig['symptom'] = 'set_order'
+    return dict(model=f'relab {fmt(es)} {fmt(ren) if ren != "NONE" else "NONE"}', impl=impl, oracle=orc,
+                what='relabel_subgraph', sig=sig)
+
+
+def h_match(a):
+    adj, ign = a
+    g = graph_of(adj)
+    ign = [tuple(e) for e in ign]
+    order = [list(e) for e in g._edges]          # trace replay: the order the implementation iterates in
+    got = [tuple(e) for e in g.maximal_matching(ign)]
+    es = set(edges_of_adj(adj))
+    adm = {e for e in es if e not in ign and (e[1], e[0]) not in ign}
+    used = [v for e in got for v in e]
+    ok = (all(e in adm for e in got) and len(used) == len(set(used))
+          and all(x in used or y in used for x, y in adm))
+    return dict(model=f'match {fmt(order)} {fmt(ign)}', impl=canon_edges(got),
+                oracle=None if ok else 'a maximal matching of the admissible edges',
+                canon=lambda v: canon_edges(parse(v)[0]), what='maximal_matching')
+
+
+def h_kron(a):
+    A, B = a
+    UM = Impl.UM
+    impl = safe(lambda: fmt(exact(UM(A).otimes(UM(B)).numpy)))
+    return dict(model=f'kron {fmt(A)} {fmt(B)}', impl=impl, oracle=fmt(exact(Impl.np.kron(Impl.np.array(A), Impl.np.array(B)))),
+                what='UnitaryMatrix.otimes', sig=dict(call='otimes'))
+
+
+def h_otimes(a):
+    A, Bs = a
+    UM, np = Impl.UM, Impl.np
+    impl = safe(lambda: fmt(exact(UM(A).otimes(*[UM(B) for B in Bs]).numpy)))
+    acc = np.array(A)
+    for B in Bs:        # explicit block formula, not np.kron: entry (i*p+k, j*q+l) = A[i][j] * B[k][l]
+        Bn = np.array(B)
+        m, n_ = acc.shape
+        p, q = Bn.shape
+        out = np.zeros((m * p, n_ * q), dtype=np.int64)
+        for i in range(m):
+            for j in range(n_):
+                for k in range(p):
+                    for l in range(q):
+                        out[i * p + k][j * q + l] = acc[i][j] * Bn[k][l]
+        acc = out
+    return dict(model=f'otimes {fmt(A)} {fmt(Bs)}', impl=impl, oracle=fmt(exact(acc)), what='UnitaryMatrix.otimes',
+                sig=dict(call='otimes'))
+
+
+def h_ipow(a):
+    A, p = a
+    np = Impl.np
+    impl = safe(lambda: fmt(exact(Impl.UM(A).ipower(p).numpy)))
+    M = np.array(A, dtype=np.int64)
+    base = M.T if p < 0 else M
+    acc = np.eye(len(A), dtype=np.int64)
+    for _ in range(abs(p)):
+        acc = acc @ base
+    return dict(model=f'ipow {fmt(A)} {p}', impl=impl, oracle=fmt(exact(acc)), what='UnitaryMatrix.ipower', sig=dict(call='ipower'))
+
+
+def h_apply(side):
+    def h(a):
+        rx, T, U, loc, inv = a
+        np = Impl.np
+
+        def f():
+            b = Impl.UB(len(rx), rx)
+            b.tensor = np.array(T, dtype=np.complex128).reshape(tuple(rx) * 2)
+            um = Impl.UM(U, [rx[q] for q in loc])
+            # eval_apply_* must give the same matrix without touching the builder
+            Mn = np.array(um.dagger.numpy if inv else um.numpy)
+            ev = (b.eval_apply_right if side == 'r' else b.eval_apply_left)(Mn, Impl.CL(loc))
+            (b.apply_right if side == 'r' else b.apply_left)(um, loc, inverse=bool(inv))
+            out = exact(b.get_unitary().numpy)
+            if exact(ev) != out:
+                return 'EVAL_APPLY_DIFFERS ' + fmt(exact(ev))
+            return fmt(out)
+        Ue = np.array(U, dtype=np.int64).T if inv else np.array(U, dtype=np.int64)
+        E = embed_operator(rx, loc, Ue)
+        Tn = np.array(T, dtype=np.int64)
+        exp = E @ Tn if side == 'r' else Tn @ E
+        Um = [list(r) for r in Ue]
+        return dict(model=f'apply{side} {fmt(rx)} {fmt(T)} {fmt(Um)} {fmt(loc)}', impl=safe(f), oracle=fmt(exact(exp)),
+                    what=f'UnitaryBuilder.apply_{"right" if side == "r" else "left"}', sig=dict(call=f'apply_{side}'))
+    return h
+
+
+# ---- oracle-only queries (no model part) -------------------------------------------------
+def h_mm_locations(a):
+    n, es, k = a
+    es = [tuple(e) for e in es]
+    adj = adj_of(n, es)
+    nq = safe(lambda: Impl.MM(n, es).coupling_graph.num_qudits)
+    got = safe(lambda: sorted({tuple(sorted(l)) for l in Impl.MM(n, es).get_locations(k)}))
+    exp = (n, sorted(connected_subsets(adj, k)))
+    sig = dict(call='MachineModel.get_locations')
+    if nq != n:
+        sig = dict(call='MachineModel.__init__', symptom='isolated_qudits_dropped')
+    return dict(model=None, impl=fmt((nq, got)), oracle=fmt(exp), sig=sig,
+                what='MachineModel(num_qudits, edges).get_locations: all connected blocks of the num_qudits-qudit machine')
+
+
+def h_mm_compat(a):
+    n, es, cn, ces, placement = a
+    es, ces = [tuple(e) for e in es], [tuple(e) for e in ces]
+
+    def f():
+        m = Impl.MM(n, es)
+        c = Impl.Circuit(cn)
+        for x, y in ces:
+            c.append_gate(Impl.CNOT(), (x, y))
+        return fmt(bool(m.is_compatible(c, None if placement == 'NONE' else placement)))
+    pl = list(range(cn)) if placement == 'NONE' else placement
+    eset = {tuple(sorted(e)) for e in es}
+    exp = cn <= n and all(tuple(sorted((pl[x], pl[y]))) in eset for x, y in ces)
+    impl = safe(f)
+    sig = dict(call='MachineModel.is_compatible')
+    if impl == 'F' and exp and any((pl[x], pl[y]) not in eset for x, y in {tuple(sorted(e)) for e in ces}):
+        sig['symptom'] = 'reversed_edge'
+    return dict(model=None, impl=impl, oracle=fmt(exp), sig=sig,
+                what='MachineModel.is_compatible: every circuit interaction lies on an (undirected) edge under the placement')
+
+
+def h_span(a):
+    adj, root = a
+    g, n = graph_of(adj), len(adj)
+    got = safe(lambda: [tuple(e) for e in g.get_rooted_minimum_span(root)])
+    reach = bfs_dist(adj, root)
+    if isinstance(got, str):
+        ok = False
+    else:
+        have = {root}
+        ok = True
+        for p, c in got:          # every edge hangs a NEW vertex below an already connected one
+            if p not in have or c in have or c not in adj[p]:
+                ok = False
+            have.add(c)
+        ok = ok and have == set(reach) and all(reach[c] == reach[p] + 1 for p, c in got)
+    return dict(model=None, impl=fmt(got) if not isinstance(got, str) else got,
+                oracle=None if ok else 'a breadth-first spanning tree of the component of root, parents before children',
+                what='get_rooted_minimum_span')
+
+
+def h_qpu(a):
+    n, es, remote = a
+    es, remote = [tuple(e) for e in es], [tuple(e) for e in remote]
+
+    def f():
+        g = Impl.G(es, n, remote_edges=remote)
+        comps = sorted(sorted(c) for c in g.get_qpu_to_qudit_map())
+        q2q = g.get_qudit_to_qpu_map()
+        sizes = sorted(sg.num_qudits for sg in g.get_individual_qpu_graphs())
+        return fmt([comps, len(q2q), g.qpu_count(), bool(g.is_distributed()), sizes])
+    local = [e for e in es if e not in remote and (e[1], e[0]) not in remote]
+    adj = adj_of(n, local)
+    comps, seen = [], set()
+    for v in range(n):
+        if v not in seen:
+            c = sorted(bfs_dist(adj, v))
+            seen.update(c)
+            comps.append(c)
+    sizes = sorted(len(c) for c in comps) if remote else [n]
+    exp = fmt([sorted(comps), n, len(comps), bool(remote), sizes])
+    return dict(model=None, impl=safe(f), oracle=exp, what='get_qpu_to_qudit_map & co.: components after deleting remote edges')
+
+
+HANDLERS = {
+    'fc': h_fc, 'fcw': h_fcw, 'deg': h_deg, 'lin': h_lin, 'fw': h_fw, 'fww': h_fww, 'spt': h_spt, 'sub': h_sub,
+    'gsub': h_gsub, 'fql': h_fql, 'perm': h_perm, 'emb': h_emb, 'topo': h_topo, 'mkg': h_mkg, 'ind': h_ind,
+    'relab': h_relab, 'match': h_match, 'kron': h_kron, 'otimes': h_otimes, 'ipow': h_ipow,
+    'applyr': h_apply('r'), 'applyl': h_apply('l'),
+    'py:mm_locations': h_mm_locations, 'py:mm_compat': h_mm_compat, 'py:span': h_span, 'py:qpu': h_qpu,
+}
+# functions whose model has a Coq theorem (props/C20.v) vs correspondence/oracle only
+THEOREM_BACKED = ['fc', 'fcw', 'deg', 'lin', 'fw', 'fww', 'spt', 'sub', 'gsub', 'perm', 'fql', 'emb', 'topo', 'mkg',
+                  'ind', 'match', 'kron', 'otimes', 'ipow', 'applyr', 'applyl']
+CORRESPONDENCE_ONLY = ['relab']
+ORACLE_ONLY = ['py:mm_locations', 'py:mm_compat', 'py:span', 'py:qpu', 'get_neighbors_of']
+
+
+def evaluate(ctx: vf.Ctx, queries: list[str]) -> int:
+    """impl + oracle + model for every query; reports violations; returns the number of failing queries"""
+    res = []
+    for qline in queries:
+        a = parse(qline)
+        try:
+            r = HANDLERS[a[0]](a[1:])
+        except Exception as e:  # noqa  (the harness itself must not die on one case)
+            r = dict(model=None, impl='HARNESS:' + repr(e)[:200], oracle='no harness exception', what='harness', sig=dict(call='harness'))
+        r['query'] = qline
+        r.setdefault('sig', dict(call=r['what'].split('(')[0]))
+        res.append(r)
+    mlines = [r['model'] for r in res if r['model']]
+    out = vf.run_model('graph', mlines) if mlines else []
+    if len(out) != len(mlines):
+        ctx.broken_obligation('correspondence graph model: wrong number of answers', f'{len(out)} vs {len(mlines)}')
+        return 1
+    it = iter(out)
+    bad = 0
+    for r in res:
+        m = next(it) if r['model'] else None
+        case = dict(query=r['query'])
+        failed = False
+        for sig, exp, obs, what in r.get('extra', []):
+            failed |= bool(ctx.violation(sig, case, exp, obs, what))
+        if r['oracle'] is not None and r['impl'] != r['oracle']:
+            failed |= bool(ctx.violation(r['sig'], case, r['oracle'], r['impl'], f"{r['what']} differs from the textbook definition"))
+        elif m is not None:
+            mc = m
+            if 'canon' in r and not m.startswith('EXN'):
+                try:
+                    mc = r['canon'](m)
+                except Exception:  # noqa
+                    mc = m
+            if mc != r['impl'] and merr(r['impl']) != mc and not (r.get('alt_ok') and r['alt_ok'](mc)):
+                sig = dict(r['sig'], kind='model-mismatch')
+                failed |= bool(ctx.violation(sig, dict(case, model_query=r['model']), mc, r['impl'],
+                                             f"{r['what']}: Coq model and implementation disagree", kind='correspondence',
+                                             corr='coq/map (extracted) vs /repo'))
+        bad += failed
+    return bad
+
+
+def signed_perm(rng, d):
+    p = list(range(d))
+    rng.shuffle(p)
+    return [[(rng.choice([1, -1]) if p[i] == j else 0) for j in range(d)] for i in range(d)]
+
+
+def generate(ctx: vf.Ctx) -> list[str]:
+    rng = ctx.rng
+    Q: list[str] = []
+    nmax = ctx.n(5, 6)
+
+    def add(line, key, nontrivial, kind):
+        Q.append(line)
+        ctx.case(key, nontrivial=nontrivial)
+        ctx.count(kind)
+
+    # ---- all labelled graphs on <= nmax vertices, random graphs to 12 vertices ----------
+    cases = []
+    for n in range(1, nmax + 1):
+        for es in all_graphs(n):
+            cases.append((n, es))
+    for _ in range(ctx.n(150, 1500)):
+        n = rng.randint(6, 12)
+        p = rng.choice([0.15, 0.3, 0.5])
+        cases.append((n, [(a, b) for a in range(n) for b in range(a + 1, n) if rng.random() < p]))
+    for n, es in cases:
+        adj = adj_of(n, es)
+        G = fmt(adj)
+        big = n > 6
+        nt = len(es) > 0
+        key = ('g', n, tuple(es))
+        ctx.case(key, nontrivial=nt)
+        ctx.count('graphs_n=%d' % n)
+        Q.append(f'fc {G}')
+        for q in list(range(n)) + ([n + rng.randint(0, 2)] if rng.random() < 0.1 else []):      # malformed: qudit out of range
+            Q.append(f'fcw {G} {q}')
+        Q += [f'deg {G}', f'lin {G}', f'fw {G}']
+        # weighted / remote edges: integer weights, so float addition in the code is exact
+        if es:
+            remote = [e for e in es if rng.random() < 0.25]
+            ov = [[a, b, rng.randint(0, 9)] if rng.random() < 0.5 else [b, a, rng.randint(0, 9)]
+                  for a, b in es if rng.random() < 0.3]
+            # overrides must be given exactly as in the edge list (documented contract); the reversed ones are
+            # the malformed stream (ValueError expected from both sides)
+            ov_ok = [o for o in ov if (o[0], o[1]) in es]
+            use = ov if rng.random() < 0.1 else ov_ok
+            if use is ov and use != ov_ok:
+                ctx.count('fww_malformed')
+            else:
+                Q.append(f'fww {n} {fmt(es)} {fmt(remote)} {rng.randint(1, 4)} {rng.randint(5, 20)} {fmt(use)}')
+        for s in (list(range(n)) if not big else [0, n - 1]) + ([n] if rng.random() < 0.05 else []):
+            Q.append(f'spt {G} {s}')
+        for k in (list(range(0, n + 2)) if n <= 4 else list(range(1, n + 1)) if not big else [2, 3]):
+            Q.append(f'sub {G} {k}')
+        for _ in range(2 if n > 1 else 1):
+            k = rng.randint(1, n)
+            loc = rng.sample(range(n), k)
+            r = rng.random()
+            if r < 0.5:
+                vals = list(range(k))
+                rng.shuffle(vals)       # renumberings that are NOT order preserving
+                ren = [[x, y] for x, y in zip(loc, vals)]
+                if rng.random() < 0.15 and k > 1:   # malformed stream: not a permutation
+                    ren[0][1] = ren[1][1]
+                    ctx.count('gsub_malformed')
+                Q.append(f'gsub {G} {fmt(loc)} {fmt(ren)}')
+            else:
+                if rng.random() < 0.08:
+                    loc = loc + [loc[0]] if rng.random() < 0.5 else loc + [n]      # duplicate / out of range
+                    ctx.count('gsub_malformed')
+                Q.append(f'gsub {G} {fmt(loc)} NONE')
+        if n >= 2:
+            loc = rng.sample(range(n), rng.randint(1, min(n, 4)))
+            Q.append(f'ind {G} {fmt(loc)}')
+            ign = [list(e) if rng.random() < 0.5 else [e[1], e[0]] for e in es if rng.random() < 0.2]
+            Q.append(f'match {G} {fmt(ign)}')
+            root = rng.randrange(n)
+            if adj[root]:        # an isolated root (disconnected graph) is out of contract: nothing to connect
+                Q.append(f'py:span {G} {root}')
+        if es and (n <= 4 or rng.random() < 0.2):
+            remote = [e for e in es if rng.random() < 0.3]
+            Q.append(f'py:qpu {n} {fmt(es)} {fmt(remote)}')
+        if n <= 4 or rng.random() < 0.1:
+            for k in range(1, min(n, 3) + 1):
+                Q.append(f'py:mm_locations {n} {fmt(es)} {k}')
+        if es and (n <= 4 or rng.random() < 0.1):
+            cn = rng.randint(2, n)
+            ces = [[x, y] for x, y in itertools.combinations(range(cn), 2) if rng.random() < 0.4]
+            pl = rng.sample(range(n), cn)
+            Q.append(f'py:mm_compat {n} {fmt(es)} {cn} {fmt(ces)} {fmt(pl) if rng.random() < 0.8 else "NONE"}')
+        if len(ctx.samples) < 3 and n >= 4 and nt:
+            ctx.sample(dict(n=n, edges=es, queries=Q[-6:]))
+
+    # ---- labels that collide in CPython's set hashing (0 and 8, 1 and 9 ...) ------------
+    for es in ([(0, 8)], [(0, 8), (8, 16), (0, 16)], [(1, 8), (8, 3)]):
+        n = 1 + max(max(e) for e in es)
+        add(f'sub {fmt(adj_of(n, es))} 2', ('collide', tuple(es)), True, 'colliding_labels')
+        add(f'relab {fmt([list(e) for e in es])} NONE', ('collide-relab', tuple(es)), True, 'colliding_labels')
+
+    # ---- is_embedded_in: all pairs of labelled graphs on <= 4 vertices -------------------
+    small = [(n, es) for n in range(1, 5) for es in all_graphs(n)]
+    pairs = [(x, y) for x in small for y in small]
+    if ctx.quick():
+        pairs = [p for p in pairs if p[0][0] <= 3 or p[1][0] <= 3] + rng.sample(pairs, 800)
+    for (n1, e1), (n2, e2) in pairs:
+        add(f'emb {fmt(adj_of(n1, e1))} {fmt(adj_of(n2, e2))}', ('emb', n1, tuple(e1), n2, tuple(e2)), bool(e1), 'is_embedded_in')
+    for _ in range(ctx.n(60, 600)):
+        n1, n2 = rng.randint(3, 5), rng.randint(4, 6)
+        e1 = [(a, b) for a in range(n1) for b in range(a + 1, n1) if rng.random() < 0.4]
+        e2 = [(a, b) for a in range(n2) for b in range(a + 1, n2) if rng.random() < 0.6]
+        add(f'emb {fmt(adj_of(n1, e1))} {fmt(adj_of(n2, e2))}', ('emb', n1, tuple(e1), n2, tuple(e2)), bool(e1), 'is_embedded_in')
+
+    # ---- constructor and topology constructors ---------------------------------------------
+    for n in range(0, ctx.n(9, 14)):
+        for name in ('all_to_all', 'linear', 'ring', 'star'):
+            if name == 'ring' and n == 0:
+                continue        # Python builds the label -1 (outside the model's naturals); out of contract
+            add(f'topo {name} {n}', ('topo', name, n), n >= 2, 'topology')
+    for r in range(0, ctx.n(5, 6)):
+        for c in range(0, ctx.n(5, 6)):
+            add(f'topo grid {r} {c}', ('grid', r, c), r * c >= 2, 'topology')
+    for _ in range(ctx.n(200, 2000)):
+        n = rng.randint(1, 6)
+        es = [[rng.randrange(n), rng.randrange(n)] for _ in range(rng.randint(0, 6))]
+        if rng.random() < 0.85:
+            es = [e for e in es if e[0] != e[1]]
+        on = rng.choice(['NONE', n, n, n + 1, max(0, n - 1)])
+        add(f'mkg {fmt(es)} {on}', ('mkg', tuple(map(tuple, es)), on), bool(es), 'constructor')
+        if es and rng.random() < 0.5:
+            vs = sorted({x for e in es for x in e})
+            if rng.random() < 0.5:
+                img = list(range(len(vs)))
+                rng.shuffle(img)
+                ren = [[v, i] for v, i in zip(vs, img)]
+                if rng.random() < 0.1:
+                    ren = ren[:-1]
+                add(f'relab {fmt(es)} {fmt(ren)}', ('relab', tuple(map(tuple, es)), tuple(map(tuple, ren))), True, 'relabel')
+            else:
+                add(f'relab {fmt(es)} NONE', ('relab', tuple(map(tuple, es))), True, 'relabel')
+
+    # ---- from_qudit_location: all (partial) permutations ----------------------------------------
+    for n in range(1, ctx.n(4, 5) + 1):
+        for k in range(0, n + 1):
+            for loc in itertools.permutations(range(n), k):
+                loc = list(loc)
+                nt = loc != list(range(len(loc)))
+                add(f'perm {n} {fmt(loc)}', ('perm', n, tuple(loc)), nt, 'perm_n=%d' % n)
+                for radix in ([2, 3, 4] if n <= 2 else [2, 3] if n <= 3 else [2]):
+                    add(f'fql {n} {radix} {fmt(loc)}', ('fql', n, radix, tuple(loc)), nt, 'from_qudit_location')
+
+    # ---- tensor / power / apply on exact signed permutation matrices ----------------------------
+    for _ in range(ctx.n(150, 1500)):
+        dims = [rng.choice([2, 3, 4]) for _ in range(rng.randint(2, 3))]
+        ms = [signed_perm(rng, d) for d in dims]
+        if len(ms) == 2:
+            add(f'kron {fmt(ms[0])} {fmt(ms[1])}', ('kron', fmt(ms)), True, 'otimes')
+        else:
+            add(f'otimes {fmt(ms[0])} {fmt(ms[1:])}', ('otimes', fmt(ms)), True, 'otimes')
+        A = signed_perm(rng, rng.choice([2, 3, 4, 8, 9]))
+        p = rng.randint(-4, 5)
+        add(f'ipow {fmt(A)} {p}', ('ipow', fmt(A), p), p not in (0, 1), 'ipower')
+    for _ in range(ctx.n(150, 1500)):
+        n = rng.randint(1, 3)
+        rx = [rng.choice([2, 2, 3]) for _ in range(n)]
+        if rng.random() < 0.3:
+            rx = [rng.choice([2, 3])] * n
+        d = 1
+        for r in rx:
+            d *= r
+        T = signed_perm(rng, d)
+        loc = rng.sample(range(n), rng.randint(1, n))     # not necessarily ascending
+        du = 1
+        for q in loc:
+            du *= rx[q]
+        U = signed_perm(rng, du)
+        side = rng.choice('rl')
+        inv = int(rng.random() < 0.3)
+        add(f'apply{side} {fmt(rx)} {fmt(T)} {fmt(U)} {fmt(loc)} {inv}', ('apply', side, fmt(rx), fmt(T), fmt(U), fmt(loc), inv),
+            True, 'apply_' + side)
+    return Q
 
 
 def run(ctx: vf.Ctx):
     ctx.uses_translators = set()
     ctx.build(**BUILD)
-    from bqskit.ir.circuit import Circuit  # noqa: F401 (import order: avoids a circular import)
-    from bqskit.qis.graph import CouplingGraph
-    from bqskit.qis.permutation import PermutationMatrix
-    import numpy as np
-    warnings.simplefilter('ignore')
-    ctx.rule = ('all labelled graphs on <=%d vertices, plus random graphs to 12 vertices with isolated vertices; '
-                'per graph: is_fully_connected, is_fully_connected_without(q), degrees, is_linear, Floyd-Warshall, '
-                'shortest-path tree from every source, connected subgraphs of every size, get_subgraph for sampled '
-                'locations/renumberings; all (partial) permutations for from_qudit_location. non-trivial = graph with '
-                '>=1 edge (or permutation != identity); distinct by canonical case text' % ctx.n(5, 6))
+    load_impl()
+    ctx.rule = (
+        'all labelled graphs on <=%d vertices + random graphs to 12 vertices (isolated vertices, disconnected); per graph: '
+        'is_fully_connected, is_fully_connected_without(every q, some out of range), degrees, neighbours, is_linear, '
+        'Floyd-Warshall (unit weights and random integer weights with remote edges / overrides), shortest-path tree from every '
+        'source, connected subgraphs of every size (incl. 0 and n+1), get_subgraph for sampled locations and non-monotone '
+        'renumberings (15%% malformed), induced subgraph, maximal matching (order replayed), rooted span, QPU maps, MachineModel '
+        'locations / compatibility; is_embedded_in on all pairs of graphs <=4 vertices; constructor on random edge lists; '
+        'topology constructors for n < %d and grids < %dx%d; from_qudit_location for all partial permutations of <=%d qudits, '
+        'radix 2-4; otimes / ipower / apply_right / apply_left on random exact signed permutation matrices (mixed radix 2,3). '
+        'one evaluation = one graph (with all its queries) / graph pair / constructor call / permutation / matrix tuple; non-trivial = graph with >= 1 edge / non-identity permutation / exponent not in {0,1}; distinct by canonical case key'
+        % (ctx.n(5, 6), ctx.n(9, 14), ctx.n(5, 6), ctx.n(5, 6), ctx.n(4, 5)))
     ctx.assumptions += [
-        'Python set iteration order does not influence the compared observations (all are sorted or order-determined)',
-        'integer/unit edge weights only (float addition exact); weighted/remote edges exercised by the oracle only',
+        'Python set iteration order does not influence the compared observations (all are sorted or order-determined); where it '
+        'does (maximal_matching) the order used by the implementation is replayed into the model',
+        'integer edge weights only (float addition exact); the Floyd-Warshall theorem is over natural weights',
+        'tensor operations are compared on exact integer (0, 1, -1) matrices: dagger = transpose; complex entries not exercised',
+        'numpy reshape/transpose/matmul/kron are kernels: modelled by index arithmetic, validated by correspondence only',
     ]
     ctx.trusted = ['Coq 8.16.1 kernel', 'ExtrOcamlBasic extraction, OCaml 4.13.1, coq/extract/graph_driver.ml',
-                   'harness/props/c20.py textbook oracle (BFS, brute-force subsets)', 'numpy equality on 0/1 matrices']
+                   'harness/props/c20.py textbook oracle (BFS, Dijkstra, brute-force subsets/injections, explicit index loops)',
+                   'numpy equality on exact integer matrices']
+    queries = []
+    cdir = vf.ROOT / 'corpus' / 'C20'
+    if cdir.exists():
+        import json
+        for f in sorted(cdir.glob('*.json')):
+            for qline in json.loads(f.read_text()).get('queries', []):
+                queries.append(qline)
+                ctx.case(('corpus', qline))
+                ctx.count('corpus')
+    queries += generate(ctx)
+    # evaluate in chunks so that one crash of the model binary is localised
+    CH = 4000
+    for i in range(0, len(queries), CH):
+        evaluate(ctx, queries[i:i + CH])
+    ctx.cov['queries'] = len(queries)
+    ctx.cov['model_queries'] = sum(1 for q in queries if not q.startswith('py:'))
+    ctx.cov['functions_with_theorems'] = THEOREM_BACKED
+    ctx.cov['functions_correspondence_only'] = CORRESPONDENCE_ONLY
+    ctx.cov['functions_oracle_only'] = ORACLE_ONLY
+    ctx.cov['uncovered'] = ['CouplingGraph.__eq__/__hash__', 'maximal_matching(randomize=True) (theorem covers every order; not run)',
+                            'UnitaryBuilder.calc_env_matrix', 'complex-valued unitaries in otimes/ipower']
+    if not ctx.quick():
+        # independent re-check of the whole .vo closure of props/C20.v with the stand-alone checker
+        rc, out, e = vf.sh(['coqchk', '-silent', '-o', '-Q', '.', 'BQ', 'BQ.props.C20'], cwd=vf.COQ, timeout=3000)
+        txt = out + e
+        ok = rc == 0 and 'Axioms: <none>' in txt.replace('\n', ' ').replace('  ', ' ')
+        ctx.cov['coqchk'] = 'ok: no axioms, no type-in-type, no unsafe fixpoints, no assumed positivity' if ok else txt[-600:]
+        if not ok:
+            ctx.broken_obligation('coqchk rejects the .vo closure of props/C20.v (or reports axioms)', txt[-2000:])
+    if ctx.violations or ctx.broken:
+        search_harder(ctx)
 
-    cases = []   # (n, edges)
-    for n in range(1, ctx.n(5, 6) + 1):
-        for es in all_graphs(n):
-            cases.append((n, es))
-    rng = ctx.rng
-    for _ in range(ctx.n(150, 1500)):
-        n = rng.randint(6, 12)
-        p = rng.choice([0.15, 0.3, 0.5])
-        es = [(a, b) for a in range(n) for b in range(a + 1, n) if rng.random() < p]
-        cases.append((n, es))
 
-    lines, expect = [], []   # model queries and the implementation's canonical answers
+def search_harder(ctx: vf.Ctx):
+    """something failed: look for more / smaller failing inputs with a fresh seed and directed small cases"""
+    import random
+    old = ctx.rng
+    ctx.rng = random.Random(ctx.seed + 1)
+    tier = ctx.tier
+    ctx.tier = 'quick'
+    try:
+        qs = generate(ctx)
+        evaluate(ctx, qs[: 20000])
+    finally:
+        ctx.rng, ctx.tier = old, tier
+    # shrink: for every violation keep the shortest failing query of the same signature
+    # (violations are de-duplicated by signature in vf.Ctx; the first one found is kept)
 
-    def q(line, impl_val, key, oracle_val=None, what=''):
-        lines.append(line)
-        expect.append((impl_val, key, oracle_val, what))
 
-    def safe(f):
-        try:
-            return f()
-        except Exception as e:  # noqa
-            return 'ERR'
-
-    for n, es in cases:
-        adj = adj_of(n, es)
-        g = CouplingGraph(es, n)
-        G = fmt(adj)
-        big = n > 6
-        key = ('g', n, tuple(es))
-        ctx.case(key, nontrivial=len(es) > 0)
-        ctx.count('graphs_n=%d' % n)
-        # connectivity
-        d0 = bfs_dist(adj, 0)
-        q(f'fc {G}', fmt('T' if g.is_fully_connected() else 'F'), key, 'T' if len(d0) == n else 'F', 'is_fully_connected')
-        for w in range(n):
-            def f():
-                return 'T' if g.is_fully_connected_without(w) else 'F'
-            s = 1 if w == 0 else 0
-            if n >= 2:
-                dd = bfs_dist(adj, s, removed=w)
-                # textbook: the graph minus w is connected (n-1 vertices); n == 2 -> single vertex, connected
-                orc = 'T' if len(dd) == n - 1 else 'F'
-            else:
-                orc = None
-            q(f'fcw {G} {w}', safe(f), key, orc, f'is_fully_connected_without({w})')
-        q(f'deg {G}', fmt(g.get_qudit_degrees()), key, fmt([len(a) for a in adj]), 'get_qudit_degrees')
-        for v in range(n):
-            got = sorted(g.get_neighbors_of(v))
-            if got != sorted(adj[v]):
-                ctx.violation(dict(call='get_neighbors_of'), dict(n=n, edges=es, v=v), sorted(adj[v]), got, 'neighbourhood differs from the edge list')
-        degs = [len(a) for a in adj]
-        lin_orc = 'T' if (n >= 2 and len(d0) == n and len(es) == n - 1 and max(degs) <= 2) else 'F'
-        # is_linear in the code does not test connectivity: a path plus disjoint cycles has the same degree
-        # profile.  The documented meaning is "linearly connected"; compare with the textbook value only when
-        # the degree test cannot be fooled (no cycle component possible below 5 vertices: path(2)+triangle).
-        impl_lin = 'T' if g.is_linear() else 'F'
-        q(f'lin {G}', impl_lin, key, lin_orc if n < 5 else None, 'is_linear')
-        # all pairs shortest paths (unit weights)
-        D = g.all_pairs_shortest_path()
-        Df = [['inf' if x == float('inf') else int(x) for x in row] for row in D]
-        orc = []
-        for i in range(n):
-            di = bfs_dist(adj, i)
-            # Floyd-Warshall on the code's matrix: D[i][i] is 2 if i has a neighbour, inf otherwise (no zero diagonal)
-            row = []
-            for j in range(n):
-                if i == j:
-                    row.append(2 if adj[i] else 'inf')
-                else:
-                    row.append(di.get(j, 'inf'))
-            orc.append(row)
-        q(f'fw {G}', fmt(Df), key, fmt(orc), 'all_pairs_shortest_path')
-        # shortest path trees
-        for s in (range(n) if not big else [0, n - 1]):
-            def f():
-                return fmt([list(p) for p in g.get_shortest_path_tree(s)])
-            got = safe(f)
-            ds = bfs_dist(adj, s)
-            if got == 'ERR':
-                ok = len(ds) < n
-            else:
-                paths = g.get_shortest_path_tree(s)
-                ok = len(ds) == n and all(
-                    p[0] == s and p[-1] == t and len(p) - 1 == ds[t]
-                    and all(p[i + 1] in adj[p[i]] for i in range(len(p) - 1))
-                    for t, p in enumerate(paths)
-                )
-            if not ok:
-                ctx.violation(dict(call='get_shortest_path_tree'), dict(n=n, edges=es, source=s), 'shortest paths in g (or RuntimeError iff unreachable)', got, 'shortest path tree is not a tree of shortest paths')
-            q(f'spt {G} {s}', got, key, None, f'get_shortest_path_tree({s})')
-        # connected subgraphs
-        for k in (range(1, n + 1) if not big else [2, 3]):
-            got = sorted(tuple(sorted(l)) for l in g.get_subgraphs_of_size(k))
-            orc = sorted(connected_subsets(adj, k))
-            q(f'sub {G} {k}', fmt(got), key, fmt(orc), f'get_subgraphs_of_size({k})')
-        # get_subgraph: sampled locations and renumberings
-        for _ in range(2 if n > 1 else 1):
-            k = rng.randint(1, n)
-            loc = rng.sample(range(n), k)
-            if rng.random() < 0.5:
-                vals = list(range(k))
-                rng.shuffle(vals)
-                ren = dict(zip(loc, vals))
-                if rng.random() < 0.15 and k > 1:   # malformed stream: not a permutation
-                    ren[loc[0]] = ren[loc[1]]
-                line = f'gsubr {G} {fmt(loc)} {fmt([[a, b] for a, b in ren.items()])}'
-            else:
-                ren = None
-                line = f'gsub {G} {fmt(loc)}'
-
-            def f():
-                sg = g.get_subgraph(loc, ren)
-                assert sg.num_qudits == k
-                return fmt(sorted([list(e) for e in sg._edges]))
-            got = safe(f)
-            r = ren if ren is not None else {x: i for i, x in enumerate(loc)}
-            if len(set(r.values())) == k:
-                orc = fmt(sorted([list(t) for t in {tuple(sorted((r[a], r[b]))) for a, b in es if a in r and b in r}]))
-            else:
-                orc = None
-            lines.append(line)
-            expect.append((got, key, orc, 'get_subgraph'))
-            if len(ctx.samples) < 3 and n >= 4:
-                ctx.sample(dict(n=n, edges=es, query=line, impl=got))
-
-    # ---- from_qudit_location ------------------------------------------------
-    perm_cases = []
-    for n in range(1, ctx.n(4, 5) + 1):
-        for k in range(0, n + 1):
-            for loc in itertools.permutations(range(n), k):
-                perm_cases.append((n, list(loc)))
-    for n, loc in perm_cases:
-        key = ('perm', n, tuple(loc))
-        ctx.case(key, nontrivial=loc != list(range(len(loc))))
-        ctx.count('perm_n=%d' % n)
-        full = list(loc) + [i for i in range(n) if i not in loc]
-        for radix in ([2, 3] if n <= 3 else [2]):
-            P = np.array(PermutationMatrix.from_qudit_location(n, radix, loc).numpy)
-            dim = radix ** n
-            exp = np.zeros((dim, dim))
-            for col in range(dim):
-                digs = [(col // radix ** (n - 1 - qd)) % radix for qd in range(n)]
-                out = [digs[full[i]] for i in range(n)]     # position i receives qudit full[i]
-                row = sum(dg * radix ** (n - 1 - i) for i, dg in enumerate(out))
-                exp[row][col] = 1
-            if not np.array_equal(P.real, exp) or np.any(P.imag != 0):
-                ctx.violation(dict(call='from_qudit_location'), dict(n=n, radix=radix, location=loc), 'permutation matrix moving qudit location[i] to position i', 'different matrix', 'from_qudit_location is not the documented permutation')
-        # model: swap loop ends sorted; wire location[i] is pushed to position i
-        lines.append(f'perm {n} {fmt(loc)}')
-        expect.append((fmt([list(range(n)), '*', list(range(len(loc)))]), key, None, 'perm_loop'))
-
-    out = vf.run_model('graph', lines)
-    if len(out) != len(lines):
-        ctx.broken_obligation('correspondence graph model: wrong number of answers', f'{len(out)} vs {len(lines)}')
+def replay(ctx: vf.Ctx, data):
+    load_impl()
+    case = data.get('case') or {}
+    q = case.get('query') if isinstance(case, dict) else None
+    if not q:
+        ctx.broken_obligation('replay file has no query', str(data)[:300])
         return
-    for line, got_model, (impl_val, key, orc, what) in zip(lines, out, expect):
-        if what == 'perm_loop':
-            n_, loc_ = int(line.split()[1]), pv(line.split(' ', 2)[2])
-            cur, _swaps, pushed = pv(got_model)
-            if cur != list(range(n_)) or pushed != list(range(len(loc_))):
-                ctx.violation(dict(call='perm_loop-model'), line, impl_val, got_model, 'model swap loop does not sort / route wires', corr='model graph.perm')
-            continue
-        m = canon_sets(line, got_model)
-        i = canon_sets(line, impl_val)
-        if orc is not None and i != canon_sets(line, orc):
-            ctx.violation(dict(call=what.split('(')[0]), dict(query=line), orc, impl_val, f'{what} differs from the textbook definition')
-        elif m != i:
-            # model and implementation disagree while the oracle (if any) accepts the implementation
-            ctx.violation(dict(call=what.split('(')[0], kind='model-mismatch'), dict(query=line), got_model, impl_val,
-                          f'{what}: Coq model and implementation disagree', kind='correspondence', corr='coq/map/Graph.v vs bqskit/qis/graph.py')
-    ctx.cov['model_queries'] = len(lines)
-
-
-def pv(val: str):
-    return eval(val.replace('] [', '],[').replace(' ', ','))
-
-
-def canon_sets(line: str, val: str) -> str:
-    """Order-insensitive canonical form for the set-valued queries."""
-    cmd = line.split()[0]
-    if cmd in ('gsub', 'gsubr', 'sub') and val not in ('ERR',):
-        try:
-            v = eval(val.replace(' ', ','))
-            return str(sorted(set(tuple(sorted(x)) for x in v)))
-        except Exception:
-            return val
-    return val
+    ctx.case(('replay', q))
+    evaluate(ctx, [q])
